@@ -43,7 +43,11 @@ def make_script(rng, g):
         # include tree
         files, main_path, info = c07.build(rng, g)
         return ("tree", files, main_path, {"include>=3-modes"} if any(s[2] >= 3 for s in info["subs"]) else {"include"})
-    hostile = ["r", "rr", "r1", "a", "alpha", "al", "e", "E", "I", "S", "N", "p0", "phi", "ph", "x", "xx"]
+    hostile = ["r", "rr", "r1", "a", "a1", "alpha", "al", "e", "E", "I", "S", "N", "p0", "p01", "phi", "phi2", "ph", "x", "xx", "x_1", "theta", "theta1"]
+    if rng.random() < 0.3:
+        # a name next to the same name with a suffix
+        base_ = rng.choice(["phi", "r", "a", "theta", "x", "p0"])
+        hostile = [base_, base_ + rng.choice(["1", "2", "_1", "x", "0"])] + hostile
     G = gen.Gen(rng, g, params=0.0, regrefs=0.0, layout=0.0, funcs=False, hostile_names=0.5)
     lines, _ = G.metadata()
     lines.append("")
@@ -51,7 +55,7 @@ def make_script(rng, g):
     for _ in range(rng.randint(1, 6)):
         k = rng.random()
         if k < 0.45:
-            ps = rng.sample(hostile, rng.randint(2, 5))
+            ps = list(dict.fromkeys(hostile[:2] + rng.sample(hostile, rng.randint(1, 4)))) if hostile[1].startswith(hostile[0]) else rng.sample(hostile, rng.randint(2, 5))
             terms = ["%s*{%s}" % (rng.choice(["2", "0.5", "1.5e-7", "3", "1"]), p) for p in ps]
             if rng.random() < 0.4:
                 terms.append("{%s}*{%s}" % tuple(rng.sample(ps, 2)))
